@@ -23,7 +23,7 @@ FROM_COLOR_HASH = 0     # F4: Style.from_color hashes (color, bgcolor, None, Non
 WITHOUT_COLOR_HASH = 0  # F5: Style.without_color copies the old hash
 UPDATE_LINK_HASH = 0    # F6: Style.update_link copies the old hash
 UPDATE_LINK_DEF = 0     # F26: Style.update_link copies the cached _style_definition
-EMPTY_LINK = 1          # F30: Style(link="") / update_link("") store "" (falsy, yet != None for ==): NULL_STYLE + Style(link="") != Style(link="")
+EMPTY_LINK = 0          # F30: Style(link="") / update_link("") store "" (falsy, yet != None for ==): NULL_STYLE + Style(link="") != Style(link="")
 FLAGS = "".join(str(int(bool(x))) for x in (RGB_VALUEERROR, ADD_HASH, FROM_COLOR_HASH, WITHOUT_COLOR_HASH, UPDATE_LINK_HASH, UPDATE_LINK_DEF, EMPTY_LINK))
 # development aid only (comparing against another checkout, VERIF_REPO=<worktree>): VERIF_C06_FLAGS=0000000 overrides the constants above
 FLAGS = os.environ.get("VERIF_C06_FLAGS") or FLAGS
